@@ -991,8 +991,15 @@ func (cs *caseState) state() string {
 		orc("c01-stale-wtimer", "queue drained on an open conn but the write deadline timer is still set")
 	}
 	cs.hadBacklog = !st.Closed && len(st.Items) > 0
-	return fmt.Sprintf("closed=%d left=%d wl=[%s] wadded=%d reg=%d ctl=[%s] wire=%d:%d onclose=%d wtimer=%d",
-		b(st.Closed), st.Left, strings.Join(items, ","), b(st.IsWAdded), b(reg), strings.Join(ctl, ","), len(wire), cs.wireHash, atomic.LoadInt64(&cs.closes), b(st.WTimer))
+	// contents, not only sizes: the queued bytes (buffers + file ranges read back through the dup'ed fds)
+	// and, while open, the concatenation of the ranges the calls reported as accepted
+	accS := "-"
+	if !st.Closed {
+		accS = fmt.Sprintf("%d:%d", len(cs.accepted), lp.Fnv(cs.accepted))
+	}
+	return fmt.Sprintf("closed=%d left=%d wl=[%s] pend=%d:%d acc=%s wadded=%d reg=%d kout=%d dis=%d ctl=[%s] wire=%d:%d onclose=%d wtimer=%d",
+		b(st.Closed), st.Left, strings.Join(items, ","), len(pending), lp.Fnv(pending), accS, b(st.IsWAdded), b(reg), b(reg && events&syscall.EPOLLOUT != 0), b(disarmed),
+		strings.Join(ctl, ","), len(wire), cs.wireHash, atomic.LoadInt64(&cs.closes), b(st.WTimer))
 }
 
 // Oracle reports are buffered and printed after the result line of the op they belong to (the
